@@ -233,7 +233,23 @@ def real_export(o, tag, nsdef=""):
 
 
 def writer_nsdef():
-    """the namespacedef string NeuroMLWriter.write passes (read from the source so that a change there is seen)"""
+    """the namespacedef string NeuroMLWriter.write passes: observed from what the writer writes for an empty document
+    (independent of how write() is spelled); falls back to reading the assignments in the source"""
+    try:
+        import io as _io
+        import neuroml as _n
+        import neuroml.writers as _w
+        f = _io.StringIO()
+        _w.NeuroMLWriter.write(_n.NeuroMLDocument(id="x"), f, close=False)
+        m = re.match(r'<neuroml (.*) id="x"/>\n$', f.getvalue(), re.S)
+        if m:
+            return m.group(1)
+    except Exception:
+        pass
+    return _writer_nsdef_from_source()
+
+
+def _writer_nsdef_from_source():
     import ast
     import os
     import fw
